@@ -212,6 +212,10 @@ impl crate::query::CompilationBase for CompilerDatabase {
             }
             hash_map::Entry::Vacant(entry) => {
                 entry.insert(Arc::new(Cow::Owned(contents.into())));
+                // An earlier import of this module may have memoized that it does not exist
+                ModuleTextQuery
+                    .in_db_mut(self as &mut dyn Compilation)
+                    .invalidate(&module);
             }
         }
         state.add_filemap(&module, &contents[..]);
